@@ -36,6 +36,14 @@ func jsonTypeToXValue(data []byte, valType jsonparser.ValueType) XValue {
 		if err == nil {
 			return NewXText(strVal)
 		}
+
+		// valid JSON can contain escapes that jsonparser rejects, e.g. an unpaired surrogate like \ud800, so fall
+		// back to the standard library which replaces those with U+FFFD
+		quoted := make([]byte, 0, len(data)+2)
+		quoted = append(append(append(quoted, '"'), data...), '"')
+		if err := json.Unmarshal(quoted, &strVal); err == nil {
+			return NewXText(strVal)
+		}
 	case jsonparser.Number:
 		decimalVal, err := decimal.NewFromString(string(data))
 		if err == nil {
